@@ -40,11 +40,24 @@ K("awkward_reduce_countnonzero",
                                   "loops": FOLD_LOOPS, "ensures_ok": FOLD_POST}},
   serves=["C03", "C12", "C13"])
 
-for name in ["awkward_reduce_prod",
-             "awkward_reduce_prod_int32_bool_64", "awkward_reduce_prod_int64_bool_64"]:
+K("awkward_reduce_prod",
+  extents={"toptr": "outlength", "fromptr": "lenparents", "parents": "lenparents"},
+  requires=[PARENTS],
+  serves=["C03", "C12", "C13"])
+
+# product of booleans counted as integers (C03): 1 exactly when no element of the group is False
+for name in ["awkward_reduce_prod_int32_bool_64", "awkward_reduce_prod_int64_bool_64"]:
     K(name,
       extents={"toptr": "outlength", "fromptr": "lenparents", "parents": "lenparents"},
       requires=[PARENTS],
+      loops={"L0": ["0 <= i", "forall(p, 0, i, toptr[p] == 1)"],
+             "L1": ["0 <= i", "i <= lenparents", "forall(p, 0, outlength, toptr[p] == 0 or toptr[p] == 1)",
+                    "forall(q, 0, i, implies(fromptr[q] == 0, toptr[parents[q]] == 0))",
+                    "forall(p, 0, outlength, implies(toptr[p] == 0, exists(q, 0, i, parents[q] == p and fromptr[q] == 0)))"]},
+      ensures_ok=["forall(p, 0, outlength, toptr[p] == 0 or toptr[p] == 1)",
+                  "forall(q, 0, lenparents, implies(fromptr[q] == 0, toptr[parents[q]] == 0))",
+                  "forall(p, 0, outlength, implies(toptr[p] == 0, exists(q, 0, lenparents, parents[q] == p and fromptr[q] == 0)))"],
+      auto_inv=False,
       serves=["C03", "C12", "C13"])
 
 # ---- min / max over integers (C03): the result of group p bounds every element of the group and the initial value,
